@@ -12,7 +12,9 @@ package grpc
 //	    enc 0 absent, 1 "identity", 2 "gzip" / "x-verif" (registered toy) / "x-nope" for
 //	    compKind 1 / 2 / 0), one DATA frame per chunk op, and trailers with grpc-status 0; each
 //	    [2] is ClientStream.RecvMsg with MaxCallRecvMsgSize(limit) until the first non-message
-//	    result (later [2] ops observe nothing); pulled and pos are reported as 0.
+//	    result (later [2] ops observe nothing); pulled and pos are reported as 0.  dcKind != 0
+//	    on this path = the channel also has WithDecompressor(D) with D.Type() = "x-vlegacy",
+//	    which never matches the response encoding and must be ignored.
 //	    dcKind   legacy Decompressor: 0 nil, 1 NewGZIPDecompressor(), 2 toy Decompressor
 //	    compKind encoding.Compressor: 0 nil, 1 the registered gzip compressor (its reader is
 //	             wrapped to count the bytes it hands out), 2 toy compressor
@@ -415,8 +417,15 @@ func vFramingExecE2E(cfg []int64, ops [][]int64) ([][]int64, bool, []string) {
 		obs[i] = []int64{}
 	}
 	tagset := map[string]bool{"e2e": true}
-	cc, err := NewClient("passthrough:///vframing", WithTransportCredentials(insecure.NewCredentials()),
-		WithContextDialer(func(ctx context.Context, _ string) (net.Conn, error) { return lis.DialContext(ctx) }))
+	dopts := []DialOption{WithTransportCredentials(insecure.NewCredentials()),
+		WithContextDialer(func(ctx context.Context, _ string) (net.Conn, error) { return lis.DialContext(ctx) })}
+	if cfg[2] != 0 {
+		// a legacy decompressor of a Type() that differs from every response encoding: the
+		// client must ignore it and decode with the compressor registered under grpc-encoding
+		tagset["e2e-legacy-mismatch"] = true
+		dopts = append(dopts, WithDecompressor(vFramingOtherDC{vFramingToyDC{pulled: &vFramingDummyPulled}}))
+	}
+	cc, err := NewClient("passthrough:///vframing", dopts...)
 	if err != nil {
 		return obs, false, nil
 	}
@@ -641,7 +650,7 @@ func vFramingSizeNear(r *vRand, limit int64) int {
 // a frame the receiver accepts under cfg: within the limit, compressed only if that works
 func vFramingGenValid(r *vRand, cfg []int64) []byte {
 	limit := cfg[0]
-	codec := cfg[2]
+	codec := vFramingDC(cfg)
 	if codec == 0 {
 		codec = cfg[3]
 	}
@@ -673,7 +682,7 @@ func vFramingGenValid(r *vRand, cfg []int64) []byte {
 // one frame: kind of message chosen at random around the limits of cfg
 func vFramingGenFrame(r *vRand, cfg []int64) []byte {
 	limit := cfg[0]
-	codec := cfg[2]
+	codec := vFramingDC(cfg)
 	if codec == 0 {
 		codec = cfg[3]
 	}
@@ -765,7 +774,7 @@ func vFramingSplit(r *vRand, stream []byte, mode int) [][]int64 {
 // oracle entries for every payload a parser can meet on this stream (every start offset
 // the sequence of recv calls can reach; a superset is harmless)
 func vFramingOracles(cfg []int64, stream []byte) [][]int64 {
-	if cfg[2] != 1 && !(cfg[2] == 0 && cfg[3] == 1) {
+	if dc := vFramingDC(cfg); dc != 1 && !(dc == 0 && cfg[3] == 1) {
 		return nil
 	}
 	var ops [][]int64
@@ -837,21 +846,41 @@ func vFramingBuild(r *vRand, cfg []int64, frames [][]byte, mode int, cut int, ea
 	return ops
 }
 
-// the end-to-end variant of a generated case: client side, the codec moves to compKind
-func vFramingToE2E(cfg []int64) []int64 {
+// the end-to-end variant of a generated case: client side, the codec moves to compKind; with
+// legacy = true the channel also carries a WithDecompressor of another Type()
+func vFramingToE2E(cfg []int64, legacy bool) []int64 {
 	comp := cfg[3]
 	if cfg[2] != 0 {
 		comp = cfg[2]
 	}
-	return []int64{cfg[0], 0, 0, comp, cfg[4], 1}
+	dc := int64(0)
+	if legacy {
+		dc = 2
+	}
+	return []int64{cfg[0], 0, dc, comp, cfg[4], 1}
 }
+
+// the legacy Decompressor that takes part in decoding: on the end-to-end path a configured
+// one never matches the response encoding, so it must not
+func vFramingDC(cfg []int64) int64 {
+	if len(cfg) == 6 && cfg[5] == 1 {
+		return 0
+	}
+	return cfg[2]
+}
+
+// a lenient legacy Decompressor (run-length decoding, no magic) of a Type() that no response
+// of this driver announces
+type vFramingOtherDC struct{ vFramingToyDC }
+
+func (vFramingOtherDC) Type() string { return "x-vlegacy" }
 
 func vFramingGen(r *vRand, tier string, idx int) ([]int64, [][]int64) {
 	if idx >= 42 && idx < 54 {
 		// end-to-end boundary cases: codec none/gzip/toy x encoding named/absent, the fixed
 		// boundary stream, whole and cut inside a header / inside a payload
 		k := idx - 42
-		cfg := []int64{40, 0, 0, int64(k % 3), int64(2 * ((k / 3) % 2)), 1}
+		cfg := []int64{40, 0, int64(2 * (k % 2)), int64(k % 3), int64(2 * ((k / 3) % 2)), 1}
 		limit := 40
 		z := func(n int) []byte { return make([]byte, n) }
 		cmp := func(n int) []byte { return []byte{byte(n / 2), 9, byte(n - n/2), 9} }
@@ -926,7 +955,7 @@ func vFramingGen(r *vRand, tier string, idx int) ([]int64, [][]int64) {
 		}
 		cfg := []int64{limit, int64(r.Intn(2)), pair[0], pair[1], enc}
 		if idx%4 == 3 {
-			cfg = vFramingToE2E(cfg)
+			cfg = vFramingToE2E(cfg, r.Bool())
 		}
 		n := 1 + r.Intn(7)
 		var frames [][]byte
